@@ -335,4 +335,9 @@ PROPS["C11"]["engines"].append(SINKFAULT)
 
 PROPS["C07"]["engines"].append(handlers("C07", 3000, 60000))
 
-HOOK_COMMITS = ["dfecdf5", "9779dc0", "4292c91", "99b3530"]
+CATCHUP = {"engine": "catchup", "bin": "h2.test", "quick": ["-n", "4000"], "thorough": ["-n", "80000"]}
+PROPS["C12"]["engines"].append(CATCHUP)
+PROPS["C04"]["engines"].append(CATCHUP)
+PROPS["C12"]["assumptions"].append("catch-up engine: the leader's real replicateTo (non-pipelined) against a real follower's handlers, model (SV.replicateTo = leader-side loop composed with the handler model) compared request by request; the pipelined mode is exercised only by the cluster engine")
+
+HOOK_COMMITS = ["dfecdf5", "9779dc0", "4292c91", "99b3530", "d0a2b1a"]
